@@ -54,24 +54,7 @@ def max_args(term):
     return [t[2][0] for t in apps(term, "max") if t[2]]
 
 
-SCALAR_REDUCTIONS = {"max", "min", "sum", "mean", "var", "std", "len", "prod"}
-
-
-def is_scalar(t) -> bool:
-    """Per-set scalar: constants, full reductions (no axis), len(), and
-    arithmetic / log / exp / sqrt of scalars."""
-    if T.is_poly(t):
-        return all(is_scalar(b) for m, _ in t[1] for b, _e in m)
-    if t[0] == "f":
-        name, args, kw = t[1], t[2], dict(t[3])
-        if name in SCALAR_REDUCTIONS:
-            return "axis" not in kw
-        if name in ("log", "exp", "sqrt", "abs", "float", "int"):
-            return all(is_scalar(a) for a in args)
-        return False
-    if t[0] == "a":
-        return t[1] in ("pi", "inf", "nan", "euler_e")
-    return False
+from ..evalr import SCALAR_REDUCTIONS, is_scalar  # noqa: E402,F401
 
 
 def shift_weight(t, shifted: dict):
